@@ -136,7 +136,7 @@ func parsePackageNamespaces(p *packaging.PackageInfo, alreadyParsed map[string]*
 	for _, imp := range p.Imports {
 		ns, err := parsePackageNamespaces(imp.Package, alreadyParsed)
 		if err != nil {
-			return namespace, nil
+			return nil, err
 		}
 		namespace.References = append(namespace.References, ns)
 	}
